@@ -176,6 +176,7 @@ def _check(m, spec, desc, ctx, f0, factor):
             w = np.maximum(F[i], 0) ** 2
             if w.sum() > 0:
                 exp[i] = (spec.positions[cols, 1] * w).sum() / w.sum()
-        dd = same(r.value, exp, dtype=False, rtol=1e-4, atol=1e-9)
+        # float32 feature weights: absolute error scales with the largest channel depth, not with the result
+        dd = same(r.value, exp, dtype=False, rtol=1e-4, atol=1e-5 * max(1., float(np.abs(spec.positions[:, 1]).max())))
         if dd:
             V('summary_mismatch', 'get_depths: %s' % dd, **ff)
